@@ -56,8 +56,8 @@ structure World where
   charset : Bool → Option Locale.Language → Hdr.CharsetCheck
   /-- `ctx.language.get_plural_forms()` (None without language) and `tags._escape` of each -/
   pluralForms : Option Locale.Language → Option (List Str) × List Str
-  /-- `message_repr(message, template='({})')` -/
-  reprParen : Obs → Str
+  /-- `message_repr(message, template='({})')`: a function of msgid and msgctxt -/
+  reprParen : Str → Option Str → Str
   /-- the message as the format back end `name` sees it -/
   kmsg : Obs → Str → FmtCheck.KMsg
 
@@ -86,7 +86,7 @@ def toHdrEntry (o : Obs) : Hdr.Entry :=
 
 def toMsgFacts (w : World) (o : Obs) : CheckPlurals.MsgFacts :=
   { obsolete := o.obsolete, hasPlural := o.msgidPlural.isSome, translated := o.translated, nforms := o.msgstrPlural.length,
-    repr := w.reprParen o }
+    repr := w.reprParen o.msgid o.msgctxt }
 
 def nat (s : Str) : Tags.Str := s.map Char.toNat
 
